@@ -73,6 +73,7 @@ PostBrackets == { Coll(Id0("comments"), q, Lam(cV, HC)) : q \in {"any", "all"} }
            \cup { Coll(P("author", <<"posts">>), q, Lam(pV, HP)) : q \in {"any", "all"} }
 AuthorAtoms == { Cmp("eq", P("home", <<"name">>), NullL),
                  \* paths that END in a relationship: the comparison is with its foreign key
+                 Cmp("eq", P("boss", <<"boss", "id">>), IntL(3)), Cmp("eq", P("boss", <<"id">>), IntL(2)), Cmp("eq", P("boss", <<"boss", "boss", "id">>), NullL),
                  Cmp("eq", Id0("org"), IntL(1)), Cmp("eq", P("boss", <<"boss">>), IntL(3)), Cmp("eq", P("boss", <<"org">>), IntL(1)),
                  Cmp("eq", P("boss", <<"boss", "boss">>), NullL), Cmp("ne", P("home", <<"lead">>), IntL(2)),
                  \* a self-referential relationship navigated one, two and three times
